@@ -64,3 +64,20 @@ func VerifC15GemtextCache() {
 	verifrt.Assert(err == nil && m2.cachedWidth == 80 && m2.cached == ref80, "constructor-establishes-cache-invariant")
 	verifrt.Reach("end")
 }
+
+// VerifC15GemtextCacheReal: the cache lemma on the real renderer.
+func VerifC15GemtextCacheReal() {
+	text := []string{"\n# title\nsome longer text here", "=> gemini://a/b link text\n\n", "> quote\n* item\n```\npre\n```"}[verifrt.Choice("doc", 3)]
+	lines := strings.Split(text, "\n")
+	maxw := verifrt.Param("maxw", 12)
+	cw := verifrt.Int("cachedWidth", 1, maxw)
+	pre, _ := renderWithLinks(lines, cw)
+	m := &Markup{tree: lines, cached: pre, cachedWidth: cw}
+	for i := 0; i < verifrt.Param("calls", 2); i++ {
+		w := verifrt.Int("w", 1, maxw)
+		got := m.Render(w)
+		ref, _ := renderWithLinks(lines, w)
+		verifrt.Assert(got == ref, "render-equals-cache-free-rendering")
+	}
+	verifrt.Reach("end")
+}
